@@ -19,6 +19,8 @@ pub struct Beh {
 	pub react: Vec<(i32, Option<u64>)>,
 	pub default_react: Option<u64>,
 	pub ignore_all: bool,
+	/// the process needs this many ms to die after SIGKILL (a process stuck in the kernel)
+	pub kill_delay: u64,
 }
 
 #[derive(Debug, Default)]
@@ -102,8 +104,11 @@ impl TokioChildWrapper for SimChild {
 		log(&self.sh, &format!("kill({})", self.idx));
 		if !self.exited() {
 			let mut st = self.st.lock().unwrap();
-			st.exit_at = Some(Instant::now());
-			st.status = 9;
+			let at = Instant::now() + std::time::Duration::from_millis(self.beh.kill_delay);
+			if st.exit_at.map_or(true, |t| at < t) {
+				st.exit_at = Some(at);
+				st.status = 9;
+			}
 		}
 		Ok(())
 	}
@@ -141,7 +146,9 @@ impl TokioChildWrapper for SimChild {
 			return Err(std::io::Error::other("injected signal failure"));
 		}
 		log(&self.sh, &format!("signal({},{sig})", self.idx));
-		let react = if self.beh.ignore_all {
+		let react = if sig == 9 {
+			Some(self.beh.kill_delay)          // SIGKILL cannot be caught or ignored
+		} else if self.beh.ignore_all {
 			None
 		} else {
 			self.beh.react.iter().find(|(s, _)| *s == sig).map(|(_, r)| *r).unwrap_or(self.beh.default_react)
